@@ -573,7 +573,10 @@ def monitor_history(ops, obs):
         st = o["status"]
         for e in o["ev"]:
             if e.startswith(BAD_EVENTS):
-                fails.append((i, ["C01", "C07", "C15"] if not e.startswith("badread") else ["C01", "C07", "C10"], "event %s: a destroyed / never-written / freed value was touched" % e))
+                tg = ["C01", "C07", "C15"] if not e.startswith("badread") else ["C01", "C07", "C10", "C02"]
+                if f[0] in ("writeSlot", "uniqWrite") or (f[0] == "conv" and len(f) > 2 and f[2] == "assumeInit") or (f[0] == "create" and "ninit" in ops[i]):
+                    tg = tg + ["C15"]          # a write into / retyping of an uninitialised handle touched a never-written slot
+                fails.append((i, tg, "event %s: a destroyed / never-written / freed value was touched" % e))
         for s in post.values():
             if s["kind"] in ("UNPARSED",) or "?" in s["kind"] or "PROBE-PANIC" in s["dig"]:
                 fails.append((i, ["C01", "C12"], "slot probe not well-formed: %s" % s))
@@ -591,21 +594,22 @@ def monitor_history(ops, obs):
             elif p[0] == "dealloc":
                 b = int(p[1][1:])
                 if b not in live:
-                    fails.append((i, ["C01", "C05"], "block b%d freed but not live" % b))
+                    fails.append((i, ["C01", "C05", "C02"], "block b%d freed but not live" % b))
                 else:
                     if live[b] != (p[2], p[3]):
                         fails.append((i, ["C05"], "block b%d requested as %s freed as %s" % (b, live[b], (p[2], p[3]))))
                     del live[b]
                 if owners(post, b) != 0:
-                    fails.append((i, ["C01"], "block b%d freed while %d owning handle(s) remain" % (b, owners(post, b))))
+                    fails.append((i, ["C01", "C02"], "block b%d freed while %d owning handle(s) remain" % (b, owners(post, b))))
             elif p[0] == "drop":
                 if p[1] in dropped:
-                    fails.append((i, ["C01", "C06", "C07"], "value %s destroyed twice" % p[1]))
+                    fails.append((i, ["C01", "C06", "C07", "C02"], "value %s destroyed twice" % p[1]))
                 dropped.add(p[1])
         # C01: a block nobody owns any more must have been released in this op
         for b in list(live):
             if owners(post, b) == 0 and b not in leaked_ok:
-                fails.append((i, ["C01", "C07"] if st.startswith("panic") else ["C01"],
+                # C05: "when the last handle goes away ... exactly that block is returned to the allocator"
+                fails.append((i, ["C01", "C07", "C05"] if st.startswith("panic") else ["C01", "C05"],
                               "block b%d has no owning handle left but was not released (leak)" % b))
                 leaked_ok.add(b)
         # C04: the reported count equals the number of owning handles
@@ -698,7 +702,7 @@ def monitor_history(ops, obs):
                     elif tok.startswith("cnt="):
                         v = tok[4:]
                         if "|" in v or (v.isdigit() and int(v) != n_before + made):
-                            fails.append((i, ["C04"], "count read inside the %s callback is %s while %d owning handle(s) exist (the borrow must not change the count)" % (f[2], v, n_before + made)))
+                            fails.append((i, ["C04"] + (["C11"] if f[2] == "rawOffset" else []), "count read inside the %s callback is %s while %d owning handle(s) exist (the borrow must not change the count)" % (f[2], v, n_before + made)))
                             break
         # C06: a constructor that succeeds delivers exactly the given header and elements, in order,
         # destroys none of them, and leaves no source storage behind
